@@ -237,6 +237,37 @@ Proof.
   rewrite Hc at 1. cbn [firstn]. unfold spec_code. rewrite K, El, Hr. reflexivity.
 Qed.
 
+(* line breaks between code tokens: for each code token, is there a newline token between the previous code token and it *)
+Fixpoint nlk (seen : bool) (ks : list kclass) : list bool :=
+  match ks with
+  | [] => []
+  | k :: r =>
+    match k with
+    | CNewline => nlk true r
+    | CSpace | CComment => nlk seen r
+    | _ => seen :: nlk false r
+    end
+  end.
+
+Lemma nl_before_from_nlk ts : forall seen, nl_before_from seen ts = nlk seen (map tk ts).
+Proof.
+  induction ts as [|t r IH]; intros seen; [reflexivity|]. cbn [nl_before_from map nlk]. unfold is_newline, tis_trivia.
+  destruct (tk t); rewrite ?IH; reflexivity.
+Qed.
+
+Definition skinds (ss : list stok) : list kclass := map (fun s => kc (s_kind s)) ss.
+
+Lemma skinds_app a b : skinds (a ++ b) = skinds a ++ skinds b.
+Proof. apply map_app. Qed.
+
+Lemma nlk_trivia T : Forall trivial T -> forall l seen, nlk seen (skinds T ++ l) = nlk (seen || existsb is_nlk T) l.
+Proof.
+  induction 1 as [|s T Hs _ IH]; intros l seen; [cbn; rewrite orb_false_r; reflexivity|].
+  cbn [skinds map app existsb]. fold (skinds T). unfold trivial, sis_trivia in Hs. unfold is_nlk at 1.
+  destruct (s_kind s); try discriminate Hs; cbn [kc nlk orb]; rewrite IH; f_equal.
+  rewrite orb_true_r. reflexivity.
+Qed.
+
 Definition hdconc (q : Z) (l : list token) (old out : list Z) : Prop :=
   match l with
   | [] => out = []
@@ -260,21 +291,22 @@ Qed.
 
 Theorem relex_rend (G : good_spaces W) q l out : rend q l out -> 0 <= q ->
   forall ss, Forall2 corr ss l -> chain (rawtxt ss) ss -> Forall codeok ss ->
-  exists ss', chain out ss' /\ crlf_only out = true /\ cv (map pks ss') = cv (map pks ss) /\ hdconc q l (rawtxt ss) out.
+  exists ss', chain out ss' /\ crlf_only out = true /\ cv (map pks ss') = cv (map pks ss) /\ hdconc q l (rawtxt ss) out /\
+              forall seen, nlk seen (skinds ss') = nlk seen (skinds ss).
 Proof.
   induction 1 as [q|q t l out Ht H IH|q ind T l out HT1 HT2 Hl H IH|q ind e l out H IH]; intros Hq ss Hcorr Hch Hok.
   - inversion Hcorr; subst. exists []. repeat split; constructor.
   - (* a code token *)
     inversion Hcorr as [|s t' ss1 l' Hst Hc1]; subst. inversion Hch as [|s0 t0 rest ts0 Hstep Hch1]; subst.
     pose proof (chain_txt _ _ Hch1) as Hrest. subst rest. inversion Hok as [|? ? Hok0 Hok1]; subst.
-    destruct (IH ltac:(lia) ss1 Hc1 Hch1 Hok1) as (ss1' & Hc' & Hcr' & Hv' & Hh').
+    destruct (IH ltac:(lia) ss1 Hc1 Hch1 Hok1) as (ss1' & Hc' & Hcr' & Hv' & Hh' & Hnl').
     assert (Hsig : sis_trivia s = false) by (rewrite <- (corr_trivia s t Hst); exact Ht).
     destruct Hst as [Hk Hcode].
     assert (Hrel : hdrel (rawtxt ss1) out).
     { unfold hdconc in Hh'. destruct l as [|u l1]; [right; left; exact Hh'|].
       destruct (tis_trivia u); [apply Hh'; lia | left; exact Hh']. }
     pose proof (sig_relex _ _ _ out Hstep Hsig Hrel) as Hnew.
-    exists (norm_tok s :: ss1'). split; [|split; [|split]].
+    exists (norm_tok s :: ss1'). split; [|split; [|split; [|split]]].
     + rewrite Hcode. econstructor; eassumption.
     + rewrite Hcode. destruct Hok0 as [O1 O2]. apply EchoProofs.crlf_only_app_intro; assumption.
     + cbn [map]. rewrite (pks_norm s _ _ Hstep).
@@ -283,12 +315,15 @@ Proof.
       apply Hcv, Hv'.
     + unfold hdconc. rewrite Ht. destruct (code_head _ _ _ Hstep) as (c & r1 & r2 & Hr & Hc).
       exists c. eexists. eexists. rewrite rawtxt_cons, Hr, Hcode, Hc. split; reflexivity.
+    + intros seen. cbn [skinds map]. fold (skinds ss1') (skinds ss1).
+      pose proof (f_equal fst (pks_norm s _ _ Hstep)) as Hkk. cbn [fst pks] in Hkk. rewrite Hkk.
+      unfold sis_trivia in Hsig. destruct (s_kind s); try discriminate Hsig; cbn [kc nlk]; rewrite Hnl'; reflexivity.
   - (* a run of white space and comments *)
     destruct (Forall2_app_inv_r' _ _ _ _ Hcorr) as (ssT & ssl & -> & HcT & Hcl).
     destruct (chain_seg _ _ _ Hch) as [Hseg Hchl]. rewrite rawtxt_app in Hseg.
     apply Forall_app in Hok. destruct Hok as [HokT Hokl].
     pose proof (zlen_nonneg T) as HzT.
-    destruct (IH ltac:(lia) ssl Hcl Hchl Hokl) as (ssl' & Hc' & Hcr' & Hv' & Hh').
+    destruct (IH ltac:(lia) ssl Hcl Hchl Hokl) as (ssl' & Hc' & Hcr' & Hv' & Hh' & Hnl').
     assert (HtrT : Forall trivial ssT).
     { clear -HcT HT2. induction HcT as [|s t a b Hst _ IH]; [constructor|]. cbn [forallb] in HT2.
       apply andb_true_iff in HT2. destruct HT2 as [H1 H2]. constructor; [|apply IH, H2].
@@ -308,11 +343,10 @@ Proof.
         destruct (sig_head _ _ _ Hstep Hsig) as (c' & s1 & E & Hb & He). rewrite E1 in E. injection E as <- _. auto. }
     assert (Hr : rawtxt ssl = [] \/ exists c r', rawtxt ssl = c :: r' /\ is_eol c = false).
     { destruct Hnext as [(_ & -> & _)|(c & o1 & o2 & E & _ & _ & He)]; [left; reflexivity | right; eauto]. }
-    destruct (seg_arun _ _ _ Hseg HtrT Hr [] ([], AN) (or_introl eq_refl)) as (E & Hrun & HE).
-    cbn [app] in Hrun.
+    destruct (seg_arun _ _ _ Hseg HtrT Hr ([], false) (([], false), AN) (or_introl eq_refl)) as (E & Hrun & HE).
     set (e := match l with [] => true | _ => false end).
     set (X := W q ind e T).
-    assert (HrunX : arun ([], AN) X = Some (views ssT, E)).
+    assert (HrunX : arun (([], false), AN) X = Some (addtoks ([], false) ssT, E)).
     { unfold X. rewrite (gs_arun W G), Hcode. exact Hrun. }
     assert (HcrX : crlf_ok X).
     { unfold X. apply (gs_crlf W G). clear -HcT HokT. induction HcT as [|s t a b Hst _ IH]; [constructor|].
@@ -322,9 +356,9 @@ Proof.
     { destruct Hnext as [(_ & _ & ->)|(c & o1 & o2 & _ & -> & Hb & He)]; [left; reflexivity | right; eauto]. }
     assert (HEo : E = EL -> out = []).
     { intros HEL. specialize (HE HEL). destruct Hnext as [(_ & _ & ->)|(c & o1 & o2 & E1 & _)]; [reflexivity | congruence]. }
-    destruct (arun_seg (length X) X (le_n _) [] out _ _ HrunX HcrXo Hsc HEo) as (toks & Hsg & Htr & Hvw).
-    cbn [app] in Hvw.
-    exists (toks ++ ssl'). split; [|split; [|split]].
+    destruct (arun_seg (length X) X (le_n _) ([], false) out _ _ HrunX HcrXo Hsc HEo) as (toks & Hsg & Htr & Hvw0).
+    rewrite !addtoks_spec in Hvw0. cbn [fst snd app orb] in Hvw0. injection Hvw0 as Hvw Hnlw.
+    exists (toks ++ ssl'). split; [|split; [|split; [|split]]].
     + eapply seg_chain; eassumption.
     + exact HcrXo.
     + rewrite !map_app, !cv_app, Hv'. f_equal. rewrite (cv_trivia _ Htr), (cv_trivia _ HtrT), Hvw. reflexivity.
@@ -343,6 +377,7 @@ Proof.
         -- right. right. eauto.
         -- left. exists c. eexists. eexists. split; [|reflexivity]. cbn [app]. rewrite rawtxt_cons, Hr1. cbn [app].
            rewrite Hc1, Hr2 in Hc. cbn [hd] in Hc. subst c. reflexivity.
+    + intros seen. rewrite !skinds_app, (nlk_trivia _ Htr), (nlk_trivia _ HtrT), Hnlw. apply Hnl'.
   - rewrite (gs_nil W G). cbn [app]. apply IH; assumption.
 Qed.
 End Rend.
@@ -433,7 +468,7 @@ Theorem relex_text W : good_spaces W -> forall src ss0 lts root e,
   exists out ss1 lts',
     writer_text W (map lex_token lts) (view root) = Ok out /\ Forall byte out /\ spec_lex out = Some ss1 /\
     Lexer.model_lex [out] = Ok lts' /\ same_code (map lex_token lts) (map lex_token lts') = true /\
-    cv (map pks (map unpos ss1)) = cv (map pks (map unpos ss0)).
+    nl_before (map lex_token lts') = nl_before (map lex_token lts).
 Proof.
   intros G src ss0 lts root e HB Hs Hm Hp Hc Hw.
   destruct (LexerView.lex_agrees_code src ss0 HB Hs) as (lts0 & Hm0 & Hcodes & _).
@@ -448,7 +483,7 @@ Proof.
   assert (Hrend : rend W 0 ts (chunks_text W cs)).
   { apply (tiling_rend W ts 0 cs (zlen ts) Htil); [lia | reflexivity | exact Hg | exact Hcd]. }
   rewrite Htxt in Hch.
-  destruct (relex_rend W G 0 ts _ Hrend ltac:(lia) ss Hcorr Hch Hok) as (ss' & Hch' & Hcr' & Hv & _).
+  destruct (relex_rend W G 0 ts _ Hrend ltac:(lia) ss Hcorr Hch Hok) as (ss' & Hch' & Hcr' & Hv & _ & Hnl).
   set (out := chunks_text W cs) in *.
   destruct (EchoRelexSpec.chain_spec_lex out ss' Hcr' Hch') as (ss1 & Hs1 & Hu1).
   assert (HBo : Forall byte out).
@@ -458,35 +493,62 @@ Proof.
   destruct (LexerView.lex_agrees_code out ss1 HBo Hs1) as (lts' & Hm' & Hcodes' & _).
   destruct (agrees_corr ss1 lts' Hcodes') as [_ Hpk'].
   exists out, ss1, lts'. split; [unfold writer_text; rewrite Hcs; reflexivity|]. split; [exact HBo|]. split; [exact Hs1|].
-  split; [exact Hm'|]. rewrite Hu1. split; [|exact Hv].
-  unfold same_code. rewrite !code_view_cv. fold ts. rewrite Hpk, Hpk', Hu1. fold ss. rewrite Hv. apply view_eqb_refl.
+  split; [exact Hm'|]. split.
+  - unfold same_code. rewrite !code_view_cv. fold ts. rewrite Hpk, Hpk', Hu1. fold ss. rewrite Hv. apply view_eqb_refl.
+  - unfold nl_before. rewrite !nl_before_from_nlk. fold ts.
+    assert (Hk : forall a b, map pkt a = map pks b -> map tk a = skinds b).
+    { intros a b H. apply (f_equal (map fst)) in H. rewrite !map_map in H. exact H. }
+    rewrite (Hk _ _ Hpk), (Hk _ _ Hpk'), Hu1. fold ss. apply Hnl.
 Qed.
 
 (* the statements of Properties/C09.v *)
-Theorem luafmt_same_code w src ss lts root e :
+From PV Require Import Instances.HoldsC09.
+
+Lemma no_new_breaks_refl l : no_new_breaks l l = true.
+Proof. induction l as [|a l IH]; [reflexivity|]. cbn [no_new_breaks]. rewrite IH. destruct a; reflexivity. Qed.
+
+Lemma lines_kept_same ts root out : nl_before out = nl_before ts -> lines_kept ts root out = true.
+Proof.
+  intros H. unfold lines_kept. rewrite H. apply forallb_forall. intros r _.
+  destruct (_ <=? _)%nat; [reflexivity|]. cbn [orb]. unfold line_kept. rewrite no_new_breaks_refl. cbn [andb].
+  destruct (nth_error (nl_before ts) _) as [[|]|]; reflexivity.
+Qed.
+
+Section Statements.
+Variable W : spaces_fn.
+Hypothesis G : good_spaces W.
+
+Theorem writer_same_code src ss lts root e :
   Forall byte src -> spec_lex src = Some ss -> Lexer.model_lex [src] = Ok lts ->
   lua_parse (map lex_token lts) = Ok (root, e) -> consumed (map lex_token lts) e = true ->
   writable (map lex_token lts) root = true ->
   exists out ss' lts',
-    writer_text (fmt_spaces w) (map lex_token lts) (view root) = Ok out /\ Forall byte out /\
+    writer_text W (map lex_token lts) (view root) = Ok out /\ Forall byte out /\
     spec_lex out = Some ss' /\ Lexer.model_lex [out] = Ok lts' /\
     same_code (map lex_token lts) (map lex_token lts') = true.
 Proof.
   intros HB Hs Hm Hp Hc Hw.
-  destruct (relex_text (fmt_spaces w) (fmt_good w) src ss lts root e HB Hs Hm Hp Hc Hw) as (out & ss1 & lts' & H1 & H2 & H3 & H4 & H5 & _).
+  destruct (relex_text W G src ss lts root e HB Hs Hm Hp Hc Hw) as (out & ss1 & lts' & H1 & H2 & H3 & H4 & H5 & _).
   exists out, ss1, lts'. auto.
 Qed.
 
-Theorem echo_same_code src ss lts root e :
+Theorem writer_holds_C09 src ss lts root e valid :
   Forall byte src -> spec_lex src = Some ss -> Lexer.model_lex [src] = Ok lts ->
   lua_parse (map lex_token lts) = Ok (root, e) -> consumed (map lex_token lts) e = true ->
   writable (map lex_token lts) root = true ->
   exists out ss' lts',
-    writer_text echo_spaces (map lex_token lts) (view root) = Ok out /\ Forall byte out /\
+    writer_text W (map lex_token lts) (view root) = Ok out /\ Forall byte out /\
     spec_lex out = Some ss' /\ Lexer.model_lex [out] = Ok lts' /\
-    same_code (map lex_token lts) (map lex_token lts') = true.
+    nl_before (map lex_token lts') = nl_before (map lex_token lts) /\
+    holds_C09 (map lex_token lts) root e valid (Some (map lex_token lts')) = true.
 Proof.
   intros HB Hs Hm Hp Hc Hw.
-  destruct (relex_text echo_spaces echo_good src ss lts root e HB Hs Hm Hp Hc Hw) as (out & ss1 & lts' & H1 & H2 & H3 & H4 & H5 & _).
-  exists out, ss1, lts'. auto.
+  destruct (relex_text W G src ss lts root e HB Hs Hm Hp Hc Hw) as (out & ss1 & lts' & H1 & H2 & H3 & H4 & H5 & H6).
+  exists out, ss1, lts'. repeat (split; [assumption|]). unfold holds_C09. rewrite Hc, H5, (lines_kept_same _ root _ H6). reflexivity.
 Qed.
+End Statements.
+
+Definition luafmt_same_code w := writer_same_code (fmt_spaces w) (fmt_good w).
+Definition echo_same_code := writer_same_code echo_spaces echo_good.
+Definition luafmt_holds_C09 w := writer_holds_C09 (fmt_spaces w) (fmt_good w).
+Definition echo_holds_C09 := writer_holds_C09 echo_spaces echo_good.
